@@ -45,6 +45,18 @@ func main() {
 		monF.Close()
 		os.RemoveAll(work)
 	}
+	if mode == "crash" || mode == "crashreplay" {
+		// crash-point enumeration on the directory store (file crash.go, build tag vfs: needs the FS shim overlay)
+		code := runCrash(h, mode, seed, n, impl)
+		finish()
+		os.Exit(code)
+	}
+	if mode == "conc" || mode == "concreplay" {
+		// forced schedules of concurrent requests (file conc.go, build tag sched: needs the scheduler overlay)
+		code := runConc(h, mode, seed, n, impl)
+		finish()
+		os.Exit(code)
+	}
 	if mode == "replay" {
 		f, err := os.Open(os.Getenv("VERIF_OPS"))
 		if err != nil {
